@@ -139,6 +139,7 @@ type runState struct {
 	stopAt                   time.Duration // virtual instant at which faults stopped
 	cycleErrs, errsAfterStop int
 	powerLoss                bool
+	chunkAtMove int64
 	outcome                  simcore.Hash64
 }
 
@@ -247,6 +248,10 @@ func (rs *runState) movePivot(n int) bool {
 	if rs.syncer.FrozenPivot() != nil {
 		rs.res.Probe("move-refused-frozen-pivot")
 		return false
+	}
+	if c := rs.net.chunkReqs.Load(); c > 0 && c != rs.chunkAtMove {
+		rs.res.Probe("pivot-move-after-split-storage-progress")
+		rs.chunkAtMove = c
 	}
 	rs.w.Import(rs.pivot + n)
 	rs.writeHeaders(rs.pivot+1, rs.pivot+n)
@@ -438,7 +443,7 @@ func (rs *runState) loop() {
 				if !n.faultsOn {
 					rs.errsAfterStop++
 					if rs.errsAfterStop > 40 {
-						rs.fail(simcore.Violf("liveness", "sync cycles keep failing after the faults stopped (%d failures, last: %v)", rs.errsAfterStop, err))
+						rs.fail(simcore.Violf("liveness", "sync cycles keep failing after the faults stopped (%d failures, last: %v)%s", rs.errsAfterStop, err, rs.flatDiff()))
 						return
 					}
 				}
@@ -642,6 +647,10 @@ func runWorld(p *Plan, res *simcore.Result) *runState {
 	synctest.Wait()
 	res.SimTimeNS = int64(rs.net.now())
 	res.Events = rs.net.requests
+	if n := rs.net.chunkReqs.Load(); n > 0 {
+		res.Probes["storage-chunk-requests"] += int(n)
+		res.Probe("runs-with-split-storage")
+	}
 	for k, c := range rs.net.perKind {
 		if c > 0 {
 			res.Probes["requests:"+kindName[k]] += c
@@ -914,6 +923,42 @@ func (rs *runState) checkDisk() *simcore.Violation {
 		}
 	}
 	return nil
+}
+
+// flatDiff names the first differences between Node B's flat state and the state
+// of the current pivot (diagnosis for a sync that cannot finish).
+func (rs *runState) flatDiff() string {
+	final := rs.w.Ref(rs.w.Header(rs.pivot).Root)
+	mem := rs.kv.Mem()
+	var out []string
+	for _, a := range final.Accounts {
+		if len(out) >= 3 {
+			break
+		}
+		for _, sl := range a.Storage {
+			got, _ := mem.Get(append(append(append([]byte{}, rawdb.SnapshotStoragePrefix...), a.Hash[:]...), sl.K...))
+			if !bytes.Equal(got, sl.V) {
+				out = append(out, fmt.Sprintf("slot %x/%x: Node B has %x, pivot state has %x", a.Hash[:6], sl.K[:6], got, sl.V))
+				break
+			}
+		}
+	}
+	it := mem.NewIterator(rawdb.SnapshotStoragePrefix, nil)
+	for it.Next() && len(out) < 4 {
+		k := it.Key()
+		if len(k) != 65 {
+			continue
+		}
+		a := final.Account(common.BytesToHash(k[1:33]))
+		if a == nil || a.Slot(common.BytesToHash(k[33:])) == nil {
+			out = append(out, fmt.Sprintf("slot %x/%x = %x on Node B does not exist in the pivot state", k[1:7], k[33:39], it.Value()))
+		}
+	}
+	it.Release()
+	if len(out) == 0 {
+		return ""
+	}
+	return fmt.Sprintf("; flat state vs pivot %d: %v", rs.pivot, out)
 }
 
 func head(s []string, n int) []string {
